@@ -5,10 +5,15 @@ import (
 	"math/rand"
 	"os"
 	"path/filepath"
+	"reflect"
 	"runtime"
+	"strconv"
 	"strings"
+	"sync"
 	"sync/atomic"
 	"time"
+
+	"github.com/echovault/sugardb/sugardb"
 )
 
 func init() {
@@ -99,6 +104,12 @@ func checkC19(ctx *Ctx) {
 			c19Restore(ctx, i)
 		}
 	}
+	for i := 0; i < ctx.N(32, 320); i++ {
+		if ctx.Mine(i) {
+			ctx.SetCurrent(fmt.Sprintf("C19 concurrent history %d seed %d", i, ctx.Seed))
+			c19Concurrent(ctx, i)
+		}
+	}
 }
 
 func c19Program(ctx *Ctx, i int, gens []cmdGen, every int) {
@@ -106,7 +117,9 @@ func c19Program(ctx *Ctx, i int, gens []cmdGen, every int) {
 	ac := &asyncCounter{}
 	setHook(ac.hook)
 	defer setHook(nil)
-	in, err := NewInst(InstOpts{})
+	root := mkScratch("c19p")
+	defer os.RemoveAll(root)
+	in, err := NewInst(InstOpts{DataDir: filepath.Join(root, "data")})
 	if err != nil {
 		ctx.Broken(err.Error())
 		return
@@ -116,7 +129,11 @@ func c19Program(ctx *Ctx, i int, gens []cmdGen, every int) {
 	var trace []Step
 	db := 0
 	steps := 40 + r.Intn(40)
+	freshAt := steps/3 + r.Intn(steps/3)
 	for k := 0; k < steps; k++ {
+		if k == freshAt && !c19FreshCompare(ctx, in, ac, root, trace, "mid-history") {
+			return
+		}
 		st := Step{}
 		switch {
 		case r.Intn(12) == 0:
@@ -175,6 +192,9 @@ func c19Program(ctx *Ctx, i int, gens []cmdGen, every int) {
 			return
 		}
 	}
+	if !c19FreshCompare(ctx, in, ac, root, trace, "end-of-history") {
+		return
+	}
 	// empty dataset => zero
 	in.Do("FLUSHALL")
 	ac.wait(5 * time.Second)
@@ -186,6 +206,114 @@ func c19Program(ctx *Ctx, i int, gens []cmdGen, every int) {
 	if i == 0 {
 		ctx.Sample("history", progStrings(trace))
 	}
+}
+
+// c19FreshCompare: the figure depends on the current dataset only, so a fresh server given the same
+// dataset directly must report the same figure. The dataset is handed over through a snapshot (the
+// restore path stores every key once, with nothing of the history); the comparison is made only when the
+// fresh server's dump equals the original's exactly (keys, types, values, deadlines) - a round trip that
+// changes the dataset is C03's business - and when no expired-but-uncollected entry is left (the restore
+// drops those; they are collected with the server's own sampler first). Returns false after a violation.
+func c19FreshCompare(ctx *Ctx, in *Inst, ac *asyncCounter, root string, trace []Step, point string) bool {
+	now := in.Clk.NowNs()
+	expiredPresent := func(d sugardb.VerifDumpResult) []int {
+		var dbs []int
+		for db, keys := range d.DBs {
+			for _, v := range keys {
+				if v.ExpireAt != 0 && v.ExpireAt < now {
+					dbs = append(dbs, db)
+					break
+				}
+			}
+		}
+		return dbs
+	}
+	var d sugardb.VerifDumpResult
+	for tries := 0; ; tries++ {
+		ac.wait(5 * time.Second)
+		d = in.S.VerifDump()
+		dbs := expiredPresent(d)
+		if len(dbs) == 0 {
+			break
+		}
+		if tries > 40 {
+			ctx.Count("fresh_compare_skipped:expired_entries_left", 1)
+			return true
+		}
+		for _, db := range dbs {
+			func() {
+				defer func() { _ = recover() }()
+				_ = in.S.VerifTickExpiry(db)
+			}()
+		}
+	}
+	if !ac.wait(5 * time.Second) {
+		return true
+	}
+	orig := memUsed(in)
+	d = in.S.VerifDump()
+	if len(expiredPresent(d)) > 0 {
+		ctx.Count("fresh_compare_skipped:expired_entries_left", 1)
+		return true
+	}
+	if err := in.S.VerifSnapshotSync(); err != nil {
+		ctx.Count("fresh_compare_skipped:no_snapshot", 1)
+		return true
+	}
+	fdir := filepath.Join(root, "fresh-"+point)
+	if err := copyDir(in.Dir, fdir); err != nil {
+		ctx.Count("fresh_compare_skipped:copy", 1)
+		return true
+	}
+	defer os.RemoveAll(fdir)
+	fresh, err := NewInst(InstOpts{DataDir: fdir, RestoreSnapshot: true, Clock: in.Clk})
+	if err != nil {
+		ctx.Count("fresh_compare_skipped:restore_failed", 1)
+		return true
+	}
+	fd := fresh.S.VerifDump()
+	fm := memUsed(fresh)
+	fa, _ := fresh.S.VerifAccountedSize()
+	fresh.Close()
+	if !dumpDBsEqual(d, fd) {
+		ctx.Count("fresh_compare_skipped:round_trip_differs", 1)
+		if os.Getenv("VERIF_DEBUG_C19") != "" {
+			for db, keys := range d.DBs {
+				for k, v := range keys {
+					if fv, ok := fd.DBs[db][k]; !ok || !reflect.DeepEqual(v, fv) {
+						fmt.Fprintf(os.Stderr, "DIFF db%d %q: %+v  VS  %+v (present=%v)\n", db, k, v, fv, ok)
+					}
+				}
+			}
+		}
+		return true
+	}
+	ctx.Eval(1)
+	ctx.Count("fresh_compares", 1)
+	ctx.Class(fmt.Sprintf("fresh-compare|%s|keys>%d", point, countKeysDump(d)/4*4))
+	if fm != orig {
+		ctx.Violate(Violation{Kind: "memory", Lane: "fresh-instance",
+			What: fmt.Sprintf("%s: the server reports MemoryUsed=%d; a fresh server restored from a snapshot of exactly the same dataset (%d keys; dumps equal) reports %d (and accounts %d): the figure depends on the history, not on the dataset only", point, orig, countKeysDump(d), fm, fa),
+			Case: map[string]interface{}{"program": trace, "program_text": progStrings(trace)}, Key: "c19|history-dependent"})
+		return false
+	}
+	return true
+}
+
+// dumpDBsEqual: the same keys with the same types, values and deadlines in every database (a database
+// without keys is the same as no database).
+func dumpDBsEqual(a, b sugardb.VerifDumpResult) bool {
+	if countKeysDump(a) != countKeysDump(b) {
+		return false
+	}
+	for db, keys := range a.DBs {
+		for k, v := range keys {
+			if bv, ok := b.DBs[db][k]; !ok || !reflect.DeepEqual(v, bv) {
+				return false
+			}
+		}
+	}
+	return true
 }
 
 // matchFindingAny matches state-independent predicates of open findings of the given properties.
@@ -238,4 +366,121 @@ func c19Restore(ctx *Ctx, i int) {
 				Case: map[string]interface{}{"mode": mode, "seed": i}, Key: "c19|restore|" + mode})
 		}
 	}
+}
+
+// c19Concurrent: the figure must still be a function of the dataset after a history in which writers
+// overwrite, expire and delete shared keys from several goroutines while the background expiry sampler
+// (1 ms period) or the asynchronous max-memory eviction removes keys underneath them (those two take the
+// store lock only, not the command lock). Values are large collections, so the sizing inside a write takes
+// long enough for a removal to arrive in the middle of it. Checked at quiescence, after the sampler has
+// collected every expired entry: reported figure == accounted size == figure of a fresh server.
+func c19Concurrent(ctx *Ctx, i int) {
+	r := rand.New(rand.NewSource(ctx.Seed*7_000_003 + int64(i)))
+	ac := &asyncCounter{}
+	setHook(ac.hook)
+	defer setHook(nil)
+	root := mkScratch("c19c")
+	defer os.RemoveAll(root)
+	variant := []string{"sampler", "eviction-lfu", "eviction-random", "sampler+eviction-lru"}[i%4]
+	opts := InstOpts{DataDir: filepath.Join(root, "data"), Policy: "allkeys-lru", EvictionInterval: time.Millisecond, EvictionSample: 40}
+	switch variant {
+	case "eviction-lfu":
+		opts.Policy, opts.MaxMemory, opts.EvictionInterval = "allkeys-lfu", 60_000, time.Hour
+	case "eviction-random":
+		opts.Policy, opts.MaxMemory, opts.EvictionInterval = "allkeys-random", 60_000, time.Hour
+	case "sampler+eviction-lru":
+		opts.MaxMemory = 90_000
+	}
+	in, err := NewInst(opts)
+	if err != nil {
+		ctx.Broken(err.Error())
+		return
+	}
+	defer in.Close()
+	nW, nOps, nKeys := 6, 120, 10
+	var wg sync.WaitGroup
+	var ops atomic.Int64
+	for w := 0; w < nW; w++ {
+		wg.Add(1)
+		go func(w int, seed int64) {
+			defer wg.Done()
+			rr := rand.New(rand.NewSource(seed))
+			for k := 0; k < nOps; k++ {
+				key := fmt.Sprintf("ck%d", rr.Intn(nKeys))
+				var argv []string
+				switch rr.Intn(7) {
+				case 0:
+					argv = []string{"SET", key, strings.Repeat("s", 50+rr.Intn(3000))}
+				case 1, 2:
+					argv = []string{"PEXPIREAT", key, "1"} // the entry stays stored until something collects it
+				case 3:
+					argv = []string{"RPUSH", key}
+					for e := 0; e < 300+rr.Intn(1500); e++ {
+						argv = append(argv, fmt.Sprintf("e%d-%d", w, e))
+					}
+				case 4:
+					argv = []string{"HSET", key}
+					for e := 0; e < 200+rr.Intn(600); e++ {
+						argv = append(argv, fmt.Sprintf("f%d", e), fmt.Sprintf("v%d-%d", w, e))
+					}
+				case 5:
+					argv = []string{"ZADD", key}
+					for e := 0; e < 200+rr.Intn(600); e++ {
+						argv = append(argv, strconv.Itoa(e), fmt.Sprintf("m%d-%d", w, e))
+					}
+				case 6:
+					argv = []string{"DEL", key}
+				}
+				in.Do(argv...)
+				ops.Add(1)
+			}
+		}(w, r.Int63())
+	}
+	wg.Wait()
+	ctx.Count("concurrent_ops", ops.Load())
+	// every expired entry collected, every asynchronous goroutine finished: nothing changes the dataset any more
+	now := in.Clk.NowNs()
+	for tries := 0; ; tries++ {
+		ac.wait(5 * time.Second)
+		d := in.S.VerifDump()
+		left := 0
+		for db, keys := range d.DBs {
+			n := 0
+			for _, v := range keys {
+				if v.ExpireAt != 0 && v.ExpireAt < now {
+					n++
+				}
+			}
+			if n > 0 {
+				left += n
+				func() {
+					defer func() { _ = recover() }()
+					_ = in.S.VerifTickExpiry(db)
+				}()
+			}
+		}
+		if left == 0 {
+			break
+		}
+		if tries > 200 {
+			ctx.Inconclusive("concurrent lane: expired entries were not collected")
+			return
+		}
+	}
+	if !ac.wait(5 * time.Second) {
+		ctx.Inconclusive("async cache goroutines did not quiesce")
+		return
+	}
+	got := memUsed(in)
+	want, aerr := in.S.VerifAccountedSize()
+	got2 := memUsed(in)
+	ctx.Eval(1)
+	ctx.Class("concurrent|" + variant)
+	if aerr == nil && got == got2 && got != want {
+		ctx.Violate(Violation{Kind: "memory", Lane: "concurrent-" + variant,
+			What: fmt.Sprintf("after %d operations from %d goroutines on %d shared keys (large collections written over expired and evicted entries; %s) the server at rest reports MemoryUsed=%d but the %d keys stored account for %d (difference %+d)", ops.Load(), nW, nKeys, variant, got, countKeysDump(in.S.VerifDump()), want, got-want),
+			Case: map[string]interface{}{"variant": variant, "index": i, "seed": ctx.Seed}, Key: "c19|concurrent-drift"})
+		return
+	}
+	c19FreshCompare(ctx, in, ac, root, nil, "after-concurrent-"+variant)
 }
